@@ -1,14 +1,7 @@
 //! vf-db: collection-level checks (C01-C06).
-mod c01;
-mod c02;
-mod c03;
-mod c04;
-mod c05;
-mod c06;
-mod hist;
-mod world;
 
 use vf_core::Runner;
+use vf_db::*;
 
 fn main() {
     let prop = std::env::args().nth(1).unwrap_or_default();
